@@ -221,6 +221,45 @@ def run(chk):
                               dict(source=p_, compiled_before=d_, fresh=a_, after=b_, case="compile " + vs(p_)))
     chk.stream("16 probe sources compiled after random sequences of 19 sources that leave compiler state behind (unbound names, clock "
                "reads, syntax errors, long chains, deep nesting) vs. compiled by a fresh process", nseq + len(probes), len(seqs), exhaustive=False)
+    # ---- an evaluation does not depend on what the process evaluated before ------------------------------------------
+    # One process runs a batch of unrelated programs in order, in reverse order and with every program twice in a row; each
+    # result must be the one a fresh process gives.  This is where state kept between calls would show: caches of zones,
+    # patterns or compiled programs, counters, thread-locals of the compiler and the VM.
+    zpat = ["UTC", "Europe/Paris", "Nowhere/City", "America/New_York", "Bogus/Zone", "Asia/Tokyo", "utc "]
+    rpat = ["a(b)?c", "(", "[a-z]+", "\\d+", "(x)*", "a|b"]
+    isrc = ["t1.getHours('%s')" % z for z in zpat] + ["t1.getDate('%s') + t1.getDayOfYear('%s')" % (z, z2) for z, z2 in zip(zpat, zpat[1:])] + \
+           ["s1.matches('%s')" % r for r in rpat] + ["'abc'.matchCaptures('%s')" % r for r in rpat] + ["s2.matchReplace('%s', 'z')" % r for r in rpat] + \
+           ["max(1, 2) + i1", "size(ub) > 0", "[ub].map(v, v)", "now() == now() || true", "f'{i1}{ub}'", "nosuch(1)", "1 +", "int('z')", "i1 / i0",
+            "l1.map(v, v * 2)", "m1.map(k, k)", "l3.sort()", "[1, 2].reduce(a, v, a + v, 0)", "has(m1.b.c)", "coalesce(ub, nl, 4)", "p_int + 1", "p_err", "p_ub",
+            "i1" + " + 1" * 300, "(" * 31 + "1" + ")" * 31, "(" * 40 + "1" + ")" * 40, "-" * 250 + "1", "-" * 300 + "1", "imax + 1", "umax + 1u",
+            "duration('90s')", "timestamp('2024-01-02T03:04:05Z').getHours('Europe/Paris')", "timestamp(0).getHours('Bogus/Zone')",
+            "uomConvert(1.0, 'm', 'ft')", "uomConvert(1.0, 'm', 'nosuch')", "uomConvert(2.0, 'kg', 'lb')", "string(d1) + string(t1)",
+            "match i1 { case int: 1, case _: 2 }", "match ub { case int: 1, case _: 2 }", "[1, 2].map(v, match v { case 1: 'a', case _: ub })",
+            "{'a': i1, 'a': 2}", "l1[5]", "m1.zz", "s2.toUpper()", "s2.split('l')", "l2.map(v, v.contains('a'))", "type(t1) == timestamp",
+            "fa(1) + fa(2)", "fargs(1, ub)", "fe() || true"]
+    icases = [evalsrc_case(x_) for x_ in isrc]
+    ifresh = [run_impl([c_], isolate=True)[0] for c_ in icases]
+    orders = [("in order", list(range(len(icases)))), ("in reverse order", list(range(len(icases)))[::-1]),
+              ("each twice in a row", [i for i in range(len(icases)) for _ in (0, 1)][:198])]
+    for _ in range(2 if chk.tier == "quick" else 12):
+        o_ = list(range(len(icases))); rng.shuffle(o_)
+        orders.append(("shuffled", o_))
+    ntot = 0
+    for nm_, o_ in orders:
+        o_ = o_[:198]
+        out = run_impl([icases[i] for i in o_], isolate=True)
+        ntot += len(o_)
+        for pos, (i, r_) in enumerate(zip(o_, out)):
+            a_, b_ = split_result(ifresh[i])[:2], split_result(r_)[:2]
+            if isrc[i].startswith("now()"):
+                continue
+            if a_ != b_ and not is_dead(r_) and not is_dead(ifresh[i]):
+                chk.violation("the result of an evaluation depends on what the process evaluated before it",
+                              dict(source=isrc[i], case=icases[i], fresh=ifresh[i], after=r_, order=nm_,
+                                   evaluated_before=[isrc[j] for j in o_[max(0, pos - 4):pos]]))
+    chk.stream("%d unrelated programs (zones known and unknown, patterns valid and invalid, unit conversions, failing and non-compiling "
+               "sources, nesting and operator limits) run by one process in several orders and twice in a row vs. one fresh process each"
+               % len(isrc), ntot + len(icases), len(orders), exhaustive=False)
     chk.cov["rule"] = ("histories: every sequence up to length 3 (quick) / 4 (thorough, sampled at length 4) over the 16-operation "
                        "alphabet, then random ones; probes cover every (context, bindings, program) triple; the expected "
                        "stores are tracked by the generator, the fresh-context comparison runs on the implementation only")
